@@ -94,7 +94,7 @@ func (p *Packet) Length() int {
 
 // Frames returns the number of data frames in the packet
 func (p *Packet) Frames() int {
-	if p.shape == nil {
+	if p.shape == nil || p.format == nil {
 		return 0
 	}
 	nchan := 1
@@ -103,8 +103,11 @@ func (p *Packet) Frames() int {
 			nchan *= int(s)
 		}
 	}
-
-	return int(p.payloadLength) / (p.format.wordlen * nchan)
+	bytesPerFrame := p.format.wordlen * nchan
+	if bytesPerFrame <= 0 {
+		return 0
+	}
+	return int(p.payloadLength) / bytesPerFrame
 }
 
 // SequenceNumber returns the packet's internal sequenceNumber
@@ -188,14 +191,19 @@ func (p *Packet) ReadValue(sample int) int {
 	}
 	switch d := p.Data.(type) {
 	case []int16:
-		return int(d[sample])
+		if sample < len(d) {
+			return int(d[sample])
+		}
 	case []int32:
-		return int(d[sample])
+		if sample < len(d) {
+			return int(d[sample])
+		}
 	case []int64:
-		return int(d[sample])
-	default:
-		panic("Oh no! Type of d is not known in Packet.ReadValue()")
+		if sample < len(d) {
+			return int(d[sample])
+		}
 	}
+	return 0
 }
 
 // NewData adds data to the packet, and creates the format and shape TLV items to match.
@@ -325,9 +333,11 @@ func (p *Packet) Bytes() []byte {
 // ChannelInfo returns the number of channels in this packet, and the first one
 func (p *Packet) ChannelInfo() (nchan, offset int) {
 	nchan = 1
-	for _, s := range p.shape.Sizes {
-		if s > 0 {
-			nchan *= int(s)
+	if p.shape != nil {
+		for _, s := range p.shape.Sizes {
+			if s > 0 {
+				nchan *= int(s)
+			}
 		}
 	}
 	return nchan, int(p.offset)
